@@ -10,6 +10,7 @@ RULE = ("every byte string of length 0..2 (65 793, exhaustive, identical for eve
         "of length 3..1024 (lengths biased to 3..16 and to 1024; contents random, all-zero, all-0xff, single-bit) "
         "passed as bytes / bytearray / list of ints to crc16 and crc64 and compared with a table-driven "
         "CRC-16/GENIBUS and CRC-64/WE; distinct = distinct byte string; non-trivial = length >= 1")
+RULE = __import__("vf.core", fromlist=["rule_add"]).rule_add(RULE, 'also a reused buffer refilled in place and the same bytes passed in two consecutive calls')
 META = {"engine": "C function",
         "technique": "differential test against an independent table-driven CRC (exhaustive <= 2 bytes + random <= 1 KiB)",
         "level_text": "exploration: the space of strings up to two bytes is enumerated completely, longer strings are "
